@@ -85,6 +85,18 @@ impl TlsClient {
         Ok((TlsClient { conn, sock, local, pending: vec![] }, hello))
     }
 
+    /// the same over a socket the caller has connected (and tuned) itself
+    fn over(sock: TcpStream, cfg: &Arc<rustls::ClientConfig>) -> Result<(TlsClient, Vec<u8>), String> {
+        let local = sock.local_addr().map_err(|e| e.to_string())?;
+        let name = rustls::pki_types::ServerName::try_from("localhost").unwrap();
+        let mut conn = rustls::ClientConnection::new(cfg.clone(), name).map_err(|e| e.to_string())?;
+        let mut hello = vec![];
+        while conn.wants_write() {
+            conn.write_tls(&mut hello).map_err(|e| e.to_string())?;
+        }
+        Ok((TlsClient { conn, sock, local, pending: vec![] }, hello))
+    }
+
     /// finish the handshake (after the ClientHello bytes have been sent) and do one request
     fn request(&mut self, req: &[u8], watchdog: Duration) -> Result<vmon::client::Resp, String> {
         self.sock.set_read_timeout(Some(watchdog)).ok();
@@ -977,6 +989,33 @@ async fn h_big(
     Ok(dropshot::HttpResponseOk(dropshot::ResultsPage::new(items, &BigScan { tag: None }, |it: &BigItem, _: &BigScan| BigSel { last: it.id })?))
 }
 
+fn slow_reader_socket(addr: SocketAddr, rcvbuf: libc::c_int) -> Option<TcpStream> {
+    use std::os::fd::FromRawFd;
+    let SocketAddr::V4(a) = addr else { return None };
+    unsafe {
+        let fd = libc::socket(libc::AF_INET, libc::SOCK_STREAM | libc::SOCK_CLOEXEC, 0);
+        if fd < 0 {
+            return None;
+        }
+        let mss: libc::c_int = 1460;
+        libc::setsockopt(fd, libc::SOL_SOCKET, libc::SO_RCVBUF, &rcvbuf as *const _ as *const libc::c_void, 4);
+        libc::setsockopt(fd, libc::IPPROTO_TCP, libc::TCP_MAXSEG, &mss as *const _ as *const libc::c_void, 4);
+        let sa = libc::sockaddr_in {
+            sin_family: libc::AF_INET as libc::sa_family_t,
+            sin_port: a.port().to_be(),
+            sin_addr: libc::in_addr { s_addr: u32::from_ne_bytes(a.ip().octets()) },
+            sin_zero: [0; 8],
+        };
+        if libc::connect(fd, &sa as *const _ as *const libc::sockaddr, std::mem::size_of::<libc::sockaddr_in>() as u32) != 0 {
+            libc::close(fd);
+            return None;
+        }
+        let s = TcpStream::from_raw_fd(fd);
+        s.set_nodelay(true).ok();
+        Some(s)
+    }
+}
+
 /// C15 over HTTPS with a client like a remote one: small receive buffer, small
 /// segments, one keep-alive connection per scan.
 fn run_c15(seed: u64, rounds: usize) -> Report {
@@ -1006,18 +1045,16 @@ fn run_c15(seed: u64, rounds: usize) -> Report {
             let limit: Option<u32> = if r < 2 { [None, Some(250)][r] } else { *rng.pick(&[Some(7), Some(60), None, Some(250)]) };
             let rcvbuf: libc::c_int = if r < 2 { 4096 } else { *rng.pick(&[4096, 16384]) };
             let eff = limit.unwrap_or(100);
-            let Ok((mut c, hello)) = TlsClient::connect(srv.addr, &cfg) else {
+            // receive buffer and segment size are set BEFORE connect(), so that they shape
+            // the window advertised from the first segment on
+            let Some(sock) = slow_reader_socket(srv.addr, rcvbuf) else {
                 rep.inconclusive("connect");
                 continue;
             };
-            {
-                use std::os::fd::AsRawFd;
-                let mss: libc::c_int = 1460;
-                unsafe {
-                    libc::setsockopt(c.sock.as_raw_fd(), libc::SOL_SOCKET, libc::SO_RCVBUF, &rcvbuf as *const _ as *const libc::c_void, 4);
-                    libc::setsockopt(c.sock.as_raw_fd(), libc::IPPROTO_TCP, libc::TCP_MAXSEG, &mss as *const _ as *const libc::c_void, 4);
-                }
-            }
+            let Ok((mut c, hello)) = TlsClient::over(sock, &cfg) else {
+                rep.inconclusive("tls client");
+                continue;
+            };
             if c.sock.write_all(&hello).is_err() {
                 rep.inconclusive("hello write");
                 continue;
